@@ -19,9 +19,9 @@ CLAIMS.update({
          "traces are unique; the generator's arith_map/compare_map (regenerated each run) agree with the reference operators including "
          "division by zero; reaching all_is_win is [flag win] + terminal loop; write(int) is correct. PROVED end to end for the sequential "
          "integer core (int locals, arithmetic, comparisons/and/or/not, declarations, assignments, write/writeln, blocks, if, loops, "
-         "return): core_semantic_preservation - the model Compiler/Core.lean of the code generator, checked on every run to be IDENTICAL "
+         "return, try/undo with defeat calls, int parameters of the entry point, user functions with calls and recursion): core_semantic_preservation - the model Compiler/Core.lean of the code generator, checked on every run to be IDENTICAL "
          "to the assembled output of the real compiler, performs exactly the events of the source semantics, for every program, word "
-         "size, stack size and build mode. NOT proved beyond the core (arrays, bytes, strings, calls, time travel): validated by running "
+         "size, stack size, argument vector and build mode. NOT proved beyond the core (arrays, bytes, strings, globals, preempt/stop): validated by running "
          "real hidc output on the Lean VM against the reference machine on generated programs, the examples and the 52 upstream "
          "recorded outputs.", "machine-checked proof (Lean 4) of semantics framework, tables and library + differential validation of whole programs", "6 C01"),
  'C02': ("proof", "Proof, partial. The construct laws (undo/preempt/stop/?? as Turing jumps: taken iff the other branch Defeats; a caught "
